@@ -196,3 +196,18 @@ Proof.
       destruct (enc_atoms m (a :: l)) as [ts m']. destruct H as [I [E R]].
       split; [exact I|split; [exact E|]]. split; [reflexivity|]. exists ts. split; [exact R|reflexivity].
 Qed.
+
+(* a value without namespace-qualified QNames does not touch the prefix map *)
+Lemma data_plain_of v : value_names_ok v = true -> has_ns_qname v = false -> data_plain v = true.
+Proof.
+  unfold value_names_ok, has_ns_qname, value_qnames, data_plain. intros Hn Hq.
+  apply forallb_forall. intros a Ha. destruct a as [s|q]; [reflexivity|].
+  rewrite forallb_forall in Hn. pose proof (Hn _ Ha) as Hqn. unfold atom_names_ok in Hqn. cbn in Hqn.
+  rewrite andb_true_r in Hqn. rewrite (split_build q Hqn).
+  destruct (fst q) as [[|x u]|] eqn:E; [| |reflexivity].
+  - unfold name_ok in Hqn. rewrite E in Hqn. cbn in Hqn. rewrite andb_false_r in Hqn. discriminate.
+  - exfalso. refine (eq_true_false_abs _ _ Hq).
+    apply existsb_exists. exists q. split; [|destruct q as [ou l]; cbn [fst] in *; subst ou; reflexivity].
+    apply in_flat_map. exists (AQName q). split; [exact Ha|left; reflexivity].
+Qed.
+
